@@ -43,8 +43,10 @@ Definition tt_step (rmaxs : list nat) (mu : nat) (d2 : Q) (s : rst) : rst :=
       let r := m_c (ts_left an) in
       let c' := tab3 r (a_d1 c) (a_d2 c) (fun a j q => g2 (ts_right an) a (j * a_d2 c + q)) in
       let cp' := tab3 (a_d0 cp) (a_d1 cp) r (fun p j a => qsum (a_d2 cp) (fun t => Qred (g3 cp p j t * g2 (ts_left an) t a))) in
-      mkRst (mkSt (upd_mode (mu - 1) (upd_mode mu ms (mkCM c' (cm_U m))) (mkCM cp' (cm_U pv))) (s_ans (r_st s)) (s_ok (r_st s)))
-            rest (r_ok s && arr2_close M (ts_M an) && close5 d2 (ts_d2 an) && Nat.eqb (ts_rmax an) (nth (mu - 1) rmaxs O))
+      mkRst (mkSt (upd_mode (mu - 1) (upd_mode mu ms (mkCM c' (cm_U m) (maxabs_q (m_dat (ts_right an)))))
+                            (mkCM cp' (cm_U pv) (Qred (nat_q (a_d2 cp) * maxabs_q (m_dat (ts_left an)) * cm_sc pv))))
+                  (s_ans (r_st s)) (s_ok (r_st s)))
+            rest (r_ok s && arr2_close_sc (nfloor * cm_sc m) M (ts_M an) && close5 d2 (ts_d2 an) && Nat.eqb (ts_rmax an) (nth (mu - 1) rmaxs O))
   end.
 Fixpoint sweep (rmaxs : list nat) (mu n : nat) (d2 : Q) (s : rst) : rst :=     (* mu, mu-1, ..., mu-n+1; rmax=rmax[mu-1] *)
   match n with O => s | S n' => sweep rmaxs (mu - 1) n' d2 (tt_step rmaxs mu d2 s) end.
